@@ -383,8 +383,8 @@ Proof.
       assert (Hnlt : n < fnext R) by (eapply desc_lt; [exact Hwf|apply (wf_root_lt _ _ Hwf)|exact Hn]).
       apply IH.
       * rewrite flat_map_app. cbn [flat_map]. rewrite app_nil_r.
-        rewrite <- app_assoc. cbn [app]. rewrite app_comm_cons. rewrite <- I1.
-        rewrite <- app_assoc. reflexivity.
+        rewrite app_comm_cons. rewrite <- I1. unfold kidsof.
+        rewrite <- !app_assoc. reflexivity.
       * rewrite <- app_assoc. cbn [app]. change (n :: q ++ kidsof R n) with ((n :: q) ++ kidsof R n).
         rewrite app_assoc. apply NoDup_app_iff. split; [exact I2|]. split.
         { eapply wf_kids_nodup; eauto. }
@@ -403,7 +403,8 @@ Proof.
       * intros P y rest E. apply app_snoc_split in E as [(-> & -> & ->)|(rest' & -> & E)]; [|eapply I4; eauto].
         destruct V as [|v0 V'].
         { left. cbn in I1. inversion I1. auto. }
-        right. cbn [app] in I1. inversion I1 as [[E0 E1]]. subst v0.
+        right. pose proof (f_equal (@tl _) I1) as E1. cbn [app tl] in E1.
+        pose proof (f_equal (@hd _ 0) I1) as E0. cbn [app hd] in E0. subst v0.
         assert (Hin : In n (flat_map (fkids R) (rootR :: V'))).
         { rewrite <- E1. apply in_or_app. right; left; reflexivity. }
         apply in_flat_map in Hin as (x & Hx & Hnx).
@@ -443,3 +444,93 @@ Proof.
   intros x Hx. apply doc_nodes_iff; [exact Hwf|]. apply H2. exact Hx.
 Qed.
 End BFS.
+
+(* ------------------------------------------------------------------ *)
+(** * Reachability under the operations                                 *)
+(* ------------------------------------------------------------------ *)
+Lemma desc_incl f f' a n :
+  (forall b c, desc f a b -> In c (fkids f b) -> In c (fkids f' b)) -> desc f a n -> desc f' a n.
+Proof.
+  intros H Hd. induction Hd as [|b c Hd IH Hin]; [constructor|].
+  eapply desc_step; [exact IH|]. apply H; assumption.
+Qed.
+
+Lemma desc_ext f f' a n : (forall p, fkids f p = fkids f' p) -> desc f a n -> desc f' a n.
+Proof. intros H. apply desc_incl. intros b c _ Hc. rewrite <- H. exact Hc. Qed.
+
+Lemma desc_set_lab f m l a n : desc (set_lab f m l) a n <-> desc f a n.
+Proof. split; apply desc_ext; intros p; reflexivity. Qed.
+
+Lemma desc_ins f root l t pos a n :
+  wf_forest f root -> t < fnext f -> a < fnext f -> desc f a n -> desc (ins_f f l t pos) a n.
+Proof.
+  intros Hwf Ht Ha. apply desc_incl. intros b c Hb Hc.
+  apply fkids_ins_In; [exact Ht|eapply desc_lt; eauto|right; exact Hc].
+Qed.
+
+Lemma desc_ins_new f root l t pos a :
+  wf_forest f root -> t < fnext f -> a < fnext f -> desc f a t -> desc (ins_f f l t pos) a (fnext f).
+Proof.
+  intros Hwf Ht Ha Hd. eapply desc_step; [eapply desc_ins; eauto|].
+  apply fkids_ins_In; [exact Ht|exact Ht|left; auto].
+Qed.
+
+Lemma desc_ins_inv f root l t pos n :
+  wf_forest f root -> t < fnext f -> desc (ins_f f l t pos) root n -> n = fnext f \/ desc f root n.
+Proof.
+  intros Hwf Ht Hd. induction Hd as [|b c Hd IH Hin]; [right; constructor|].
+  destruct IH as [->|IH].
+  - rewrite fkids_ins_new in Hin by exact Ht. contradiction.
+  - assert (Hb : b < fnext f) by (eapply desc_lt; [exact Hwf|apply (wf_root_lt _ _ Hwf)|exact IH]).
+    apply fkids_ins_In in Hin; [|exact Ht|exact Hb].
+    destruct Hin as [[-> _]|Hin]; [left; reflexivity|right]. eapply desc_step; eauto.
+Qed.
+
+Lemma desc_move_avoid f root c t pos a n :
+  wf_forest f root -> t < fnext f -> a < fnext f ->
+  desc f a n -> ~ desc f c n -> desc (move_f f c t pos) a n.
+Proof.
+  intros Hwf Ht Ha Hd. induction Hd as [|b x Hd IH Hin]; intros Hn; [constructor|].
+  assert (Hb : b < fnext f) by (eapply desc_lt; eauto).
+  eapply desc_step.
+  - apply IH. intros Hcb. apply Hn. eapply desc_step; eauto.
+  - apply (fkids_move_In f root); try assumption. right. split; [exact Hin|].
+    intros ->. apply Hn. constructor.
+Qed.
+
+Lemma alive_move f root c t pos n :
+  wf_forest f root -> desc f root t -> ~ desc f c t ->
+  desc f root n -> desc (move_f f c t pos) root n.
+Proof.
+  intros Hwf Ht Hct Hd.
+  assert (Hr : root < fnext f) by apply (wf_root_lt _ _ Hwf).
+  assert (Htl : t < fnext f) by (eapply desc_lt; [exact Hwf|exact Hr|exact Ht]).
+  assert (Ht' : desc (move_f f c t pos) root t) by (eapply desc_move_avoid; eauto).
+  induction Hd as [|b x Hd IH Hin]; [constructor|].
+  assert (Hb : b < fnext f) by (eapply desc_lt; [exact Hwf|exact Hr|exact Hd]).
+  destruct (Nat.eq_dec x c) as [->|Hne].
+  - eapply desc_step; [exact Ht'|]. apply (fkids_move_In f root); try assumption. left; auto.
+  - eapply desc_step; [exact IH|]. apply (fkids_move_In f root); try assumption. right; auto.
+Qed.
+
+Lemma desc_move_inv f root c t pos n :
+  wf_forest f root -> desc f root t -> desc f root c ->
+  desc (move_f f c t pos) root n -> desc f root n.
+Proof.
+  intros Hwf Ht Hc Hd.
+  assert (Hr : root < fnext f) by apply (wf_root_lt _ _ Hwf).
+  assert (Htl : t < fnext f) by (eapply desc_lt; [exact Hwf|exact Hr|exact Ht]).
+  induction Hd as [|b x Hd IH Hin]; [constructor|].
+  assert (Hb : b < fnext f) by (eapply desc_lt; [exact Hwf|exact Hr|exact IH]).
+  apply (fkids_move_In f root) in Hin; try assumption.
+  destruct Hin as [[-> _]|[Hin _]]; [exact Hc|]. eapply desc_step; eauto.
+Qed.
+
+Lemma desc_detach_inv f root c a n :
+  wf_forest f root -> a < fnext f -> desc (detach f c) a n -> desc f a n.
+Proof.
+  intros Hwf Ha Hd. induction Hd as [|b x Hd IH Hin]; [constructor|].
+  assert (Hb : b < fnext f) by (eapply desc_lt; [exact Hwf|exact Ha|exact IH]).
+  rewrite (fkids_detach f root) in Hin by assumption. apply remove_id_In in Hin as [Hin _].
+  eapply desc_step; eauto.
+Qed.
